@@ -31,6 +31,21 @@ func (ri RawInstruction) Assemble() (RawInstruction, error) { return ri, nil }
 // Disassemble parses ri into an Instruction and returns it. If ri is
 // not recognized by this package, ri itself is returned.
 func (ri RawInstruction) Disassemble() Instruction {
+	ins := ri.disassemble()
+	if _, ok := ins.(RawInstruction); ok {
+		return ins
+	}
+	// Only recognize ri if the parsed instruction denotes exactly ri.
+	// Bits that disassemble ignores (the destination register of packet
+	// loads, unused Jt, Jf and K fields, the upper byte of Op, ...) would
+	// otherwise be lost or, like "ldx #len", change the instruction's meaning.
+	if back, err := ins.Assemble(); err != nil || back != ri {
+		return ri
+	}
+	return ins
+}
+
+func (ri RawInstruction) disassemble() Instruction {
 	switch ri.Op & opMaskCls {
 	case opClsLoadA, opClsLoadX:
 		reg := Register(ri.Op & opMaskLoadDest)
